@@ -358,6 +358,9 @@ class World:
     def obj_str(self, interp, v, node, which):
         if self.is_exception_class(v.cls) and v.cls.builtin:
             return interp.fresh_str("excmsg")
+        if interp.repr_mode == "named" and v.cls.name != "ValueDate":
+            # one text constant per object: the same object renders to the same text every time it is asked
+            return SStr(z3.String(f"repr<{v.label or v.uid}>"))
         if interp.repr_mode == "opaque" and v.cls.name != "ValueDate":      # (a date's text is a numeral the code computes with)
             r = interp.fresh_str("repr")
             r.opaque = True
@@ -621,6 +624,14 @@ class World:
         @reg("next")
         def _next(it, a, k, n):
             iv = a[0]
+            if isinstance(iv, CounterVal):
+                # a process-wide counter: its state when the unit starts is unknown; successive values increase strictly
+                cur = it.fresh_int("count")
+                key = ("counter", id(iv))
+                if it.ghost.get(key) is not None:         # (per path: the interpreter object is rebuilt for every path)
+                    it.path.assume(cur.z > it.ghost[key].z, check=False)
+                it.ghost[key] = cur
+                return cur
             if not isinstance(iv, IterVal):
                 it.guard(False, "TypeError", n, "object is not an iterator")
             r = iv.step()
@@ -1256,6 +1267,8 @@ class World:
                     it.path.assume(z3.Length(p_.z) <= 2, check=False)
                 return PList(parts)
             return Builtin("re.split", f)
+        if mod.name == "itertools" and name == "count":
+            return Builtin("itertools.count", lambda it, a, k, n: CounterVal())
         if mod.name == "sys" and name in ("stdout", "stdin", "stderr"):
             return Obj(self.builtin_classes["file"], {"_std": name})
         if mod.name == "os" and name in ("sep", "linesep", "pathsep"):
@@ -1388,6 +1401,13 @@ _MISSING = object()
 World.MISSING = _MISSING
 _OPERATOR = {"add": ast.Add, "sub": ast.Sub, "mul": ast.Mult, "truediv": ast.Div, "floordiv": ast.FloorDiv, "mod": ast.Mod,
              "pow": ast.Pow, "and_": ast.BitAnd, "or_": ast.BitOr, "xor": ast.BitXor, "lshift": ast.LShift, "rshift": ast.RShift}
+
+
+class CounterVal:
+    """itertools.count(): only strict monotonicity of the values handed out is modelled"""
+
+    def __init__(self):
+        self.last = {}
 
 
 class IterVal:
